@@ -196,7 +196,7 @@ def run_class_case(ci, pool):
 
 
 # ---- special shapes: bundles, observed-data containers, markings, toplevel-property extensions, datetime inputs in other zones
-NSPECIAL = 15
+NSPECIAL = 17
 
 
 def special_shapes(si: int) -> bool:
@@ -336,6 +336,71 @@ def run_special_case(si):
                         if r is not True:
                             return (cls.__module__, p.name, c.name, us) + r
         return True
+    if si in (15, 16):
+        from stix2 import registry
+        saved = {ver: {cat: dict(m) for cat, m in cats.items()} for ver, cats in registry.STIX2_OBJ_MAPS.items()}
+        try:
+            if si == 15:
+                # content of a type is seen BEFORE the type is registered (returned as a dictionary / refused), then the type is registered:
+                # from then on its objects round trip like any other, alone and as bundle members
+                raw = {"type": "x-late-type", "spec_version": "2.1", "id": "x-late-type--" + UU, "created": "2020-01-01T00:00:00.000Z",
+                       "modified": "2020-01-01T00:00:00.000Z", "prop_one": "v"}
+                rawsco = {"type": "x-late-sco", "spec_version": "2.1", "id": "x-late-sco--" + UU, "prop_one": "v"}
+                for r in (raw, rawsco):
+                    if not isinstance(stix2.parse(r, allow_custom=True), dict):
+                        return ("unregistered type not kept as a dictionary",)
+                    try:
+                        stix2.parse(r, allow_custom=False)
+                        return ("unregistered type accepted in strict mode",)
+                    except (STIXError, ValueError):
+                        pass
+
+                @stix2.v21.CustomObject("x-late-type", [("prop_one", P.StringProperty(required=True))])
+                class Late(object):
+                    pass
+
+                @stix2.v21.CustomObservable("x-late-sco", [("prop_one", P.StringProperty(required=True))], ["prop_one"])
+                class LateSco(object):
+                    pass
+                for cls, r in ((Late, raw), (LateSco, rawsco)):
+                    o = stix2.parse(r, allow_custom=False)
+                    if type(o) is not cls:
+                        return ("registered type not parsed to its class", cls.__name__)
+                    rr = roundtrip_ok(o, cls, None)
+                    if rr is not True:
+                        return (cls.__name__,) + rr
+                b = stix2.v21.Bundle(objects=[Late(prop_one="a"), LateSco(prop_one="b"), raw])
+                rr = roundtrip_ok(b, stix2.v21.Bundle, None)
+                if rr is not True:
+                    return ("bundle",) + rr
+                back = stix2.parse(b.serialize())
+                return [type(m) for m in back.objects] == [Late, LateSco, Late]
+            # a registered toplevel-property extension given as a ready-made INSTANCE, and objects rebuilt from a finished object's values
+            ext_id = "extension-definition--abababab-f010-4473-83ec-1edf84858f4c"
+
+            @stix2.v21.CustomExtension(ext_id, [("rank_t", P.IntegerProperty(required=True)), ("seen_t", P.TimestampProperty())])
+            class TopExt(object):
+                extension_type = "toplevel-property-extension"
+            import copy as _copy
+            o = stix2.v21.Identity(id="identity--" + UU, name="n", identity_class="individual", created="2020-01-01T00:00:00.000Z",
+                                   modified="2020-01-01T00:00:00.000Z", extensions={ext_id: TopExt()}, rank_t=3, seen_t="2020-01-01T00:00:00.120Z")
+            order = _MODEL["2.1"]["objects"]["identity"]["order"]
+            for variant in (o, _copy.deepcopy(o), o.new_version(name="m"), stix2.markings.add_markings(o, "marking-definition--613f2e26-407d-48c7-9eca-b8e91df99dc9"),
+                            stix2.parse(o.serialize()), stix2.v21.Bundle(o).objects[0]):
+                if variant.has_custom or not isinstance(variant["seen_t"], dt.datetime):
+                    return ("extension property treated as custom content",)
+                rr = roundtrip_ok(variant, stix2.v21.Identity, None)
+                if rr is not True:
+                    return rr
+                got = keys_in_order(variant.serialize(pretty=True))
+                if got.index("rank_t") < got.index("extensions") or [k for k in got if k in order] != [k for k in order if k in got]:
+                    return ("pretty order", got)
+            return True
+        finally:
+            for ver, cats in saved.items():
+                for cat, m in cats.items():
+                    registry.STIX2_OBJ_MAPS[ver][cat].clear()
+                    registry.STIX2_OBJ_MAPS[ver][cat].update(m)
     sco = {"type": "network-traffic", "id": "network-traffic--" + UU, "protocols": ["tcp"], "src_ref": "ipv4-addr--" + UU, "src_port": 0, "is_active": False,
            "start": "2020-01-01T00:00:00.000001Z", "extensions": {"http-request-ext": {"request_method": "get", "request_value": "/", "request_header": {"A-b": ["é"]}},
                                                                    "tcp-ext": {"src_flags_hex": "00"}}}
